@@ -38,12 +38,16 @@ def concretize(c, tag=False):
     for t in c["traits"]:
         e = "" if t["err"] == "-" else ", Er"
         h = " as {}" if t["hint"] == "struct" else ""
-        a.append((t.get("own", False), f'{t["n"]}({t["cp"]}{h}{e})'))
+        # dcB (C06): the From-side instruction for counterpart B carries a default case
+        dc = " | _ => dflt_b()" if c.get("dcB") and t["cp"] == "B" and t["n"] == "map" else ""
+        a.append((t.get("own", False), f'{t["n"]}({t["cp"]}{h}{e}{dc})'))
     for t in c["tattrs"]:
         n = t["n"]
         x = sfx(t["cp"])
         arg = {"ghosts": f"gx{x}: {{gh{x}()}}", "where_clause": f"T: Clone{x}", "child_parents": f"p: P{x}" + ({"b": " as ()"}.get(x, "") if tag else ""), "parent": "", "literal": "1", "pattern": "_", "type_hint": "as ()",
-               "children": "p: P", "ghost": "{gh()}", "child": "p", "bogus": "x"}[n]
+               "children": "p: P", "ghost": "{gh()}", "child": "p", "bogus": "x",
+               "child_parents_q": f"q: Q{x}", "child_parents_pq": f"p: P{x}, p.q: Q{x}"}[n]
+        n = {"child_parents_q": "child_parents", "child_parents_pq": "child_parents"}.get(n, n)
         body = f'{n}({cpfx(t["cp"])}{arg})' if arg or t["cp"] != "-" else n
         a.append(sp(t["own"], body))
     fs = []
@@ -77,6 +81,8 @@ def concretize(c, tag=False):
                 body = f"parent({cpfx(cp)}[parent([parent(d1)] deep)] inner: Inner)"
             elif n == "child":
                 body = f"child({cpfx(cp)}p)"
+            elif n == "child_pq":
+                body = f"child({cpfx(cp)}p.q)"
             elif n == "parent0":
                 body = f"parent({cp})" if cp != "-" else "parent"
             elif n == "literal":
@@ -136,6 +142,7 @@ RULES = [
     (r"Dedicated #\[(\w+)\(\.\.\.\)\] instruction for type (\S+) is already defined", lambda m: f"second_dedicated/{m.group(1)}:{m.group(2)}"),
     (r"#\[ghost\(\.\.\.\)\] for member '(\w+)' should provide default value for type (\S+)", lambda m: f"ghost_no_default/{m.group(1)}:{m.group(2)}"),
     (r"Missing #\[child_parents\(\.\.\.\)\] instruction for (\S+)", lambda m: "child_no_parents/" + m.group(1)),
+    (r"Missing '([\w.]+): \[Type Path\]' instruction for type (\S+)", lambda m: f"child_missing_parent/{m.group(1)}:{m.group(2)}"),
     (r"(?:Member|Struct) instruction '(\w+)' should be used on", lambda m: "misplaced/" + m.group(1)),
     (r"(?:Member|Struct) instruction '(\w+)' is not applicable to enums", lambda m: "misplaced/" + m.group(1)),
     (r"Perhaps you meant '(\w+)'", lambda m: "misnamed/" + m.group(1)),
@@ -166,7 +173,7 @@ def classify(msgs):
 
 def run(tier, seed):
     ctx = core.Ctx("C15", tier, seed, LEVEL)
-    cfgs = ["MC_C15_q1", "MC_C15_q2", "MC_C15_q3", "MC_C15_q4", "MC_C15_q5", "MC_C15_q6", "MC_C15_q7", "MC_C15_q8"]
+    cfgs = ["MC_C15_q1", "MC_C15_q2", "MC_C15_q3", "MC_C15_q4", "MC_C15_q5", "MC_C15_q6", "MC_C15_q7", "MC_C15_q8", "MC_C15_q9"]
     import streams
     cases = []
     for cfg in cfgs:
